@@ -11,7 +11,7 @@ ls -d seeded/$G/ | while read -r d; do
   id="$(basename "$d")"
   checks="$(python3 -c "import json,sys; print(' '.join(json.load(open('$d/meta.json')).get('detected_by',[])))")"
   echo "$id $checks"
-done | xargs -P "$P" -L 1 bash -c 'id="$0"; shift 0; tools/seedtest.sh "seeded/$id" "$@" > "/var/tmp/seedmatrix/$id.log" 2>&1'
+done | xargs -P "$P" --process-slot-var=SEED_SLOT -L 1 bash -c 'id="$0"; shift 0; SEED_SLOT="m$SEED_SLOT" tools/seedtest.sh "seeded/$id" "$@" > "/var/tmp/seedmatrix/$id.log" 2>&1'
 {
   echo "# Seeded changes re-run against /repo $(git -C /repo log --format=%h -1), machinery $(git log --format=%h -1)"
   echo
